@@ -178,7 +178,9 @@ class BaseWorkflow(object, metaclass=abc.ABCMeta):
                 self.task_list.append(
                     BaseSubProjectTask(
                         file_path=j["file_path"],
-                        unit_timedelta=j["unit_timedelta"],
+                        unit_timedelta=datetime.timedelta(
+                            seconds=float(j["unit_timedelta"])
+                        ),
                         read_json_file=j["read_json_file"],
                         remove_absence_time_list=j["remove_absence_time_list"],
                         name=j["name"],
